@@ -44,11 +44,11 @@ CHECKS = {
    design="6 C17"),
  "C04": dict(
    text="Bounded exhaustive symbolic check of the real FKMNonlinearDetector (first and second HCM pass incl. the junction logic, find_turns, sample tail, recorder) on symbolic integer load sequences against the rainflow cycles of the periodic reversal sequence started at its largest absolute load: multiset of second-pass (loads_min, loads_max) == oracle cycles, every second-pass hysteresis closed, half-counted hystereses only in the first pass and symmetric about zero, and invariance of the second-pass cycles under one inserted non-reversal sample at every position incl. the end/junction.",
-   note="Bound: sequence length 2..5 (quick) / 2..6 (thorough); refinement base length 2..3 / 2..4. Integer loads (tolerance comparisons exact, rewritten to integer arithmetic). Linear stub law (counting depends on loads only). One open known finding (known_findings.json: C04-deferred_reversal_closes_loop) is excluded by its region predicate; the junction defect outside it was repaired in /repo (b090510).",
+   note="Bound: sequence length 2..5 (quick) / 2..6 (thorough); refinement base length 2..3 / 2..4. Integer loads (tolerance comparisons exact, rewritten to integer arithmetic). Linear stub law (counting depends on loads only). Two junction defects found by this check were repaired in /repo (b090510, 375d6ae); no region is excluded.",
    design="6 C04"),
  "C05": dict(
    text="Bounded exhaustive symbolic check of the HCM stress-strain bookkeeping of the real FKMNonlinearDetector / FKMNonlinearRecorder against an independent scalar implementation of the HCM case analysis (primary branch, Masing secondary branches from the reversal point, Memory 1-3, running strain extremes, pass numbers): every column of recorder.collective and the visited strain values; multi-point series (non-contiguous node ids, proportional loads) give every point its single-point rows; negated loads mirror all stresses and strains.",
-   note="Bound: 2 and 4 reversals per period (proper reversal sequences incl. start from zero and junction; everything else is C04), 1..3 points with factors 1/2, 2, 3. Notch law = odd extensions of positive increasing uninterpreted functions (contract stub); concrete replays use an analytic law. Integer loads. The oracle was written from the same reading of the guideline as the code. Multi-point running strain extremes are not compared (decided on the first node; equality per node needs Masing/convexity). C04's open finding region is excluded.",
+   note="Bound: 2 and 4 reversals per period (proper reversal sequences incl. start from zero and junction; everything else is C04), 1..3 points with factors 1/2, 2, 3. Notch law = odd extensions of positive increasing uninterpreted functions (contract stub); concrete replays use an analytic law. Integer loads. The oracle was written from the same reading of the guideline as the code. Multi-point running strain extremes are not compared (decided on the first node; equality per node needs Masing/convexity).",
    design="6 C05"),
  "C08": dict(
    text="Symbolic check of the real WoehlerCurve accessor in log-domain arithmetic (every positive quantity is 10**e with e a real symbol, so the power laws are linear arithmetic on exponents): cycles/load mutual inverses across the knee and for k_2 = inf, knee value, slopes k_1 above and k_2 below the endurance limit, non-increasing in load, Miner variants change only k_2 and leave the original untouched, cycles grow with the failure probability, N_90/N_10 = TN and SD_90/SD_10 = TS, group law and identity of transform_to_failure_probability, std <-> scatter range inverses with T = 10**(2 z_0.9 s), array and Series input == scalar calls.",
